@@ -179,6 +179,67 @@ pub fn run(tier: Tier) -> i32 {
             ctx.violation(sig, d, json!({"kind": "exec", "config": cfg, "ops": ops, "first_probe": first}));
         }
     });
+    // the length a read returns must not depend on how much room the caller's buffer has, whichever backend decrypts
+    // (ring's ciphers take another code path when the buffer is shorter than the message): every handshake message and
+    // transport messages of several sizes read into buffers with 0, 1, 8, 15, 16, 17 and 64 spare bytes, both backends
+    {
+        use crate::seam::Backend;
+        let mut jobs = vec![];
+        for backend in [Backend::Ring, Backend::Default] {
+            for c in [CipherAlg::ChaChaPoly, CipherAlg::AesGcm] {
+                for pat in ["NN", "XX", "IK", "N"] {
+                    for spare in [0isize, 1, 8, 15, 16, 17, 64] {
+                        for stateless in [false, true] {
+                            jobs.push((backend, c, pat, spare, stateless));
+                        }
+                    }
+                }
+            }
+        }
+        ctx.count("read_buffer_room_cases", jobs.len() as u64);
+        jobs.par_iter().for_each(|(backend, c, pat, spare, stateless)| {
+            let b = patterns::base_patterns().into_iter().find(|x| x.name == *pat).unwrap();
+            let p = Proto::new(&b, &[], DhAlg::X25519, *c, HashAlg::Sha256).unwrap();
+            let mut cfg = Config::honest(&p, 0);
+            cfg.crypto_oracle = false;
+            cfg.backend = [*backend, *backend];
+            let mut ops = vec![];
+            for op in sess::handshake_ops(&p, &[3, 20, 0, 7]) {
+                ops.push(match op {
+                    Op::HsRead { side, msg, .. } => Op::HsRead { side, msg, cap: Cap::NeedPlus(*spare) },
+                    o => o,
+                });
+            }
+            ops.extend(sess::convert_ops(if *stateless { Mode::SS } else { Mode::TT }));
+            let first = ops.len();
+            let dirs: Vec<Side> = if p.pattern.is_oneway() { vec![Side::I] } else { vec![Side::I, Side::R] };
+            let mut n = [0u64; 2];
+            for pl in [0usize, 1, 5, 40, 300] {
+                for w in &dirs {
+                    let r = w.peer();
+                    let k = n[w.idx()];
+                    n[w.idx()] += 1;
+                    if *stateless {
+                        ops.push(Op::SWrite { side: *w, nonce: k, plen: pl, cap: Cap::Roomy });
+                        ops.push(Op::SRead { side: r, nonce: k, msg: Msg::Last(*w), cap: Cap::NeedPlus(*spare) });
+                    } else {
+                        ops.push(Op::TWrite { side: *w, plen: pl, cap: Cap::Roomy });
+                        ops.push(Op::TRead { side: r, msg: Msg::Last(*w), cap: Cap::NeedPlus(*spare) });
+                    }
+                }
+            }
+            let e = sess::run(&cfg, &ops);
+            ctx.add(&ctx.evaluations, 1);
+            ctx.add(&ctx.transitions, e.steps.len() as u64);
+            ctx.add(&ctx.traces, 1);
+            ctx.add(&ctx.nontrivial, 1);
+            // the whole run is judged (handshake reads included): lengths returned by successful reads
+            for (sig, d) in judge(&e, 0) {
+                ctx.violation(sig, d, json!({"kind": "exec", "config": cfg, "ops": ops, "first_probe": 0}));
+            }
+            let _ = first;
+        });
+    }
     ctx.states.store(cases.len() as u64, std::sync::atomic::Ordering::Relaxed);
     let (p0, k0, pr0, _, _) = &cases[3];
     ctx.sample(json!({"name": p0.name, "message": k0, "probe": pr0}));
